@@ -481,6 +481,8 @@ func takePenalty(currentDB *state.StateDB, val *state.Validator, penaltyAmount *
 			if rest != nil && rest.Sign() > 0 {
 				setActual(d.Token, rest, fromDeposit)
 				if fromDeposit.Sign() > 0 {
+					// the entry is shared with val, which the journal keeps as the value to restore: charge a copy
+					d = d.DeepCopy()
 					updateCounter(fromDeposit, newVal, d.Token, d.Stake)
 					updatedDFrom = append(updatedDFrom, d) //cache
 					pRecords = append(pRecords, &PenaltyRecord{
